@@ -528,9 +528,9 @@ def evaluate(case):
 
 def bounds(tier):
     if tier == 'quick':
-        return {'L': 7, 'Lkey': 5, 'L2': 5, 'max_size': 9, 'counts': (None, 1, 2, 9), 'maxsplits': ('unset', None, 0, 1, 2, 3, 9),
+        return {'L': 7, 'Ls': 7, 'Lkey': 5, 'L2': 5, 'max_size': 9, 'counts': (None, 1, 2, 9), 'maxsplits': ('unset', None, 0, 1, 2, 3, 9),
                 'ranges': {'input_size': 20, 'chunk_size': 8, 'input_offset': 12}}
-    return {'L': 8, 'Lkey': 6, 'L2': 6, 'max_size': 10, 'counts': (None, 1, 2, 3, 10),
+    return {'L': 8, 'Ls': 9, 'Lkey': 6, 'L2': 6, 'max_size': 10, 'counts': (None, 1, 2, 3, 10),
             'maxsplits': ('unset', None, 0, 1, 2, 3, 4, 5, 10),
             'ranges': {'input_size': 48, 'chunk_size': 12, 'input_offset': 25}}
 
@@ -581,7 +581,7 @@ def split_shards(B):
 
 def gen_split(B, vf):
     v, form = vf
-    for seq in seqs(3, B['L']):
+    for seq in seqs(3, B['Ls']):
         nt = 0 in seq and len(set(seq)) > 1
         for ms in B['maxsplits']:
             yield {'fn': 'split', 'seq': seq, 'form': form, 'sep': v, 'maxsplit': ms}, nt
@@ -598,7 +598,7 @@ def gen_split2(B, vf):
 def gen_strip(B, arg):
     form, fn = arg
     variants = ('value',) if form in ('str', 'bytes') else ('default', 'None', 'value')
-    for seq in seqs(3, B['L']):
+    for seq in seqs(3, B['Ls']):
         nt = 0 in seq and len(set(seq)) > 1
         for v in variants:
             yield {'fn': fn, 'seq': seq, 'form': form, 'strip_value': v}, nt
@@ -684,7 +684,7 @@ def run(ctx):
             try:
                 for case, nt in gen(B, arg):
                     smp = None
-                    if nt and len(t.samples) < 3 and (not has_seq or len(case['seq']) >= 4):
+                    if nt and len(t.samples) < 3 and (not has_seq or (len(case['seq']) >= 4 and len(set(case['seq'])) >= 3)):
                         smp = case
                     t.count(nontrivial=nt, sample=smp)
                     for sig, exp, obs in evaluate(case):
@@ -708,8 +708,9 @@ def run(ctx):
                    + '; '.join('%s: %s' % kv for kv in RULES.items()))
     cov['exhaustive'] = not cov.get('capped')
     cov['bounds'] = {
-        'positional helpers (chunked, windowed, pairwise, split, strip, lstrip, rstrip, unique/redundant/bucketize with '
-        'key None/identity)': 'every sequence of length 0..%d over 3 symbols {SEP, a, b}' % B['L'],
+        'chunked, windowed, pairwise, unique/redundant/bucketize with key None/identity':
+            'every sequence of length 0..%d over 3 symbols {SEP, a, b}' % B['L'],
+        'split, strip, lstrip, rstrip': 'every sequence of length 0..%d over 3 symbols {SEP, a, b}' % B['Ls'],
         'presentations': 'list, tuple, one-shot generator, str, bytes (str/bytes where the elements are characters)',
         'size': '1..%d' % B['max_size'], 'count': list(B['counts']), 'fill': ['unset', None, 'z'],
         'sep': sorted(SPLIT_VARIANTS) + ['set of two separators', 'callable accepting two separators'],
